@@ -151,8 +151,10 @@ def print_assumptions(prop, module="Props", names=None, timeout=600):
             if "Closed under the global context" in body:
                 res[name] = []
             else:
-                res[name] = [a for a in re.findall(r"^([A-Za-z_][\w.']*)\s*:", body, re.M)
-                             if a != "Axioms"]   # "Axioms:" is the header line, not a name
+                # an entry is `name : type` or, for long names, `name` alone with `  : type` on the
+                # next line; "Axioms:" is the header line, not a name
+                res[name] = [a for a in re.findall(r"^([A-Za-z_][\w.']*)[ \t]*(?::|\n[ \t]+:)", body, re.M)
+                             if a != "Axioms"]
         return res
     finally:
         shutil.rmtree(gen, ignore_errors=True)
@@ -384,7 +386,7 @@ def known_match(finding, tags):
 
 
 def proof_obligations(ctx, subdirs=None, whitelist=(), modules=("Props",), make_targets=None,
-                      timeout=3000):
+                      timeout=3000, coqchk_admit=()):
     """Build the property's theorem file(s) and check their axioms."""
     prop = ctx.prop
     subdirs = subdirs or ["lib", prop]
@@ -423,8 +425,12 @@ def proof_obligations(ctx, subdirs=None, whitelist=(), modules=("Props",), make_
         # independent re-check of the compiled theorems and everything they depend on
         for m in modules:
             try:
-                rc, out = sh(["timeout", "2400", "coqchk", "-silent", "-o", "-Q", ".", "IBL",
-                              "IBL.%s.%s" % (prop, m)], cwd=COQ, timeout=2500)
+                # coqchk_admit: modules (exhaustive vm_compute sweeps, which coqchk would re-evaluate
+                # without the VM for tens of minutes) that the independent checker takes as given;
+                # they are still compiled and kernel-checked by coqc in the build
+                admit = [x for a in coqchk_admit for x in ("-admit", a)]
+                rc, out = sh(["timeout", "2400", "coqchk", "-silent", "-o", "-Q", ".", "IBL"] + admit +
+                             ["IBL.%s.%s" % (prop, m)], cwd=COQ, timeout=2500)
             except subprocess.TimeoutExpired:
                 rc, out = 124, "coqchk timed out"
             summ = out[out.find("CONTEXT SUMMARY"):] if "CONTEXT SUMMARY" in out else out[-1500:]
@@ -432,7 +438,8 @@ def proof_obligations(ctx, subdirs=None, whitelist=(), modules=("Props",), make_
             ctx.coverage.setdefault("coqchk", {})[m] = {
                 "rc": rc,
                 "axioms": [a.strip() for a in ax.group(1).split("\n") if a.strip()] if ax else None,
-                "type_in_type": ax.group(2).strip() if ax else None}
+                "type_in_type": ax.group(2).strip() if ax else None,
+                "admitted_modules_not_rechecked": list(coqchk_admit)}
             if rc != 0:
                 ctx.broken_proofs.append({"theorem": "coqchk %s.%s" % (prop, m), "why": out[-1500:]})
                 discharged = 0
